@@ -445,7 +445,16 @@ def correspond(ctx, model):
         one(ctx, model, rng, c["recipe"]["alg"], c["recipe"], c["kkt"], c["xstar"], True, "corpus")
         ctx.count(f"corpus:{name}")
     n = ctx.n(14, 36)
+    import gc
+
+    import jax
+
     for it in range(n):
+        if it % 4 == 3:
+            # every optimiser instance compiles its own jitted closures; release them (the XLA JIT otherwise
+            # runs out of executable-memory mappings after a few thousand compilations)
+            jax.clear_caches()
+            gc.collect()
         for alg in G.ALGS:
             m = None
             for _ in range(20):
